@@ -140,6 +140,7 @@ def run_check(prop, spec, tier, seed, jobs=None):
     nondet = []
     ctx = mp.get_context("fork")
     with ctx.Pool(jobs) as pool:
+        wpids = [w.pid for w in getattr(pool, "_pool", [])]
         it = pool.imap_unordered(_work, tasks, chunksize=4)
         for out in it:
             agg["runs"] += 1
@@ -185,6 +186,11 @@ def run_check(prop, spec, tier, seed, jobs=None):
                 pool.terminate()
                 break
     wall_search = time.time() - t0
+    # scratch directories of workers that were terminated in the middle of a run
+    import glob, shutil
+    for wp in wpids:
+        for d in glob.glob("/dev/shm/verif.%d.*" % wp):
+            shutil.rmtree(d, ignore_errors=True)
     # ------------------------------------------------ violation pipeline
     known = load_known()
     reports = []
